@@ -295,6 +295,42 @@ fn sec_case(c: &SecCase) -> Result<(), Failure> {
 			for _ in 0..c.before.max(1) {
 				cb(&mut mgr, c.ibs)?;
 			}
+			// in half of the cases the delay line carries an impulse when the change arrives. Whatever
+			// the effect does with audio in flight (kira drops it), an echo that does come out must come
+			// out at a multiple of the delay time after its impulse, in seconds of audio
+			if c.before % 2 == 1 {
+				let table: Arc<[Frame]> = vec![Frame::from_mono(0.5)].into();
+				track.play(ProbeSoundData::new(Signal::Table(table), Some(1))).map_err(|_| Failure::simple("setup", "sound"))?;
+				let len1 = ((Duration::from_secs_f64(delay_s).as_secs_f64() * c.rate1 as f64) as usize).max(1);
+				// the impulse sits in the first frame of the next callback; the change comes j frames later
+				let q = ((c.param * 7919.0) as usize % 5 + 1).min((len1 / c.ibs).max(1));
+				for _ in 0..q {
+					cb(&mut mgr, c.ibs)?;
+				}
+				let j = q * c.ibs;
+				mgr.backend_mut().change_sample_rate(c.rate2);
+				let len2 = ((Duration::from_secs_f64(delay_s).as_secs_f64() * c.rate2 as f64) as usize).max(1);
+				let mut out = vec![];
+				while out.len() < (2 * len2 + c.ibs) * 2 {
+					out.extend(cb(&mut mgr, c.ibs)?);
+				}
+				let d = Duration::from_secs_f64(delay_s).as_secs_f64();
+				for (i, s) in out.chunks(2).enumerate() {
+					if s[0] == 0.0 && s[1] == 0.0 {
+						continue;
+					}
+					// (frame i of the output is i frames after the first frame rendered at the new rate)
+					let t = j as f64 / c.rate1 as f64 + i as f64 / c.rate2 as f64;
+					let k = (t / d).round().max(1.0);
+					// the line is a whole number of frames long: each pass may be up to a frame short
+					let tol = (k + 1.5) / c.rate1.min(c.rate2) as f64;
+					ensure!((t - k * d).abs() <= tol, "echo-at-a-multiple-of-the-delay-time", "an impulse entered a {delay_s:.6} s delay {j} frames before the device went from {} Hz to {} Hz; an echo {s:?} comes out {i} frames after the change, i.e. {t:.6} s after the impulse ({:.3} delay times); case {c:?}", c.rate1, c.rate2, t / d);
+				}
+				// let what is left of it die down (each pass loses 6 dB)
+				for _ in 0..(len2 * 24 / c.ibs + 2) {
+					cb(&mut mgr, c.ibs)?;
+				}
+			}
 			mgr.backend_mut().change_sample_rate(c.rate2);
 			cb(&mut mgr, c.ibs)?;
 			// an impulse, then look for its echo
@@ -357,7 +393,7 @@ impl Property for C16 {
 		"C16"
 	}
 	fn rule(&self) -> &'static str {
-		"three kinds of cases. (1) Histories: tracks (children of the manager or of any track), send tracks and the main track carry probe effects; tracks are added and dropped, the device rate changes (any rate 8k..192k) and callbacks of arbitrary sizes run in any order; at every process call of every probe effect dt must be the period of the rate in force and the rate last announced to the effect (init / on_change_sample_rate) must be that rate. (2) Seconds and hertz: with a rate change after a generated number of callbacks, an index-coded sound must be heard at source frame t x its own rate (1.5 frames) and end after its duration (one callback), a clock must show speed x seconds (1e-9) and a volume tween must end after its duration (one callback), a delay must return an impulse after delay_time x the new rate frames exactly, and a low-pass filter must keep its -6.02 dB corner gain (0.2 dB) at both rates. (3) Silent history: any of the eight built-in effects (generated parameters, feedback effects nested in delays) that has only processed silence at one rate and is then told another must produce the same output (1e-6 relative) as a fresh instance at the new rate. Non-trivial = a rate change while a track is queued or playing (histories), or rate1 != rate2 (seconds cases); distinct = distinct decoded choices."
+		"three kinds of cases. (1) Histories: tracks (children of the manager or of any track), send tracks and the main track carry probe effects; tracks are added and dropped, the device rate changes (any rate 8k..192k) and callbacks of arbitrary sizes run in any order; at every process call of every probe effect dt must be the period of the rate in force and the rate last announced to the effect (init / on_change_sample_rate) must be that rate. (2) Seconds and hertz: with a rate change after a generated number of callbacks, an index-coded sound must be heard at source frame t x its own rate (1.5 frames) and end after its duration (one callback), a clock must show speed x seconds (1e-9) and a volume tween must end after its duration (one callback), a delay must return an impulse after delay_time x the new rate frames exactly (and, in half of these cases, an impulse that is still in the delay line when the rate changes may be dropped, but whatever echo of it comes out must come out at a multiple of the delay time in seconds of audio), and a low-pass filter must keep its -6.02 dB corner gain (0.2 dB) at both rates. (3) Silent history: any of the eight built-in effects (generated parameters, feedback effects nested in delays) that has only processed silence at one rate and is then told another must produce the same output (1e-6 relative) as a fresh instance at the new rate. Non-trivial = a rate change while a track is queued or playing (histories), or rate1 != rate2 (seconds cases); distinct = distinct decoded choices."
 	}
 	fn assumptions(&self) -> Vec<String> {
 		vec![
